@@ -22,6 +22,7 @@ func init() {
 			"R3 (ESP) RetrySubmit returns nil only right after an attempt that returned nil; " +
 			"R4 (ESP) the workspace is obtained inside the attempt, and every failing return after GetChangeOps succeeded has passed ChangeOps.Destroy; " +
 			"R5 (ESP) VersionControl.Result happens at most once per attempt, only after TryCommit:ok (or under dry-run), and the attempt returns nil only after it; " +
+			"R6b the object the manifest is parsed into is allocated during the attempt (not captured from outside the retry closure, not a parameter fed from outside, not a field or global), so no attempt sees an earlier attempt's manifest. " +
 			"R6 (slice) the manifest bytes parsed in the change function come from ReadFile on the ChangeOps parameter of that invocation (no global / context-stored copy). " +
 			"Not covered: the attempt count as a number (≤ retries+1, negative budgets), what a back end does with a fresh workspace.",
 		Assumptions: []string{"go/types, go/ssa, VTA call graph", "fmt.Errorf returns non-nil", "interface methods of VersionControl/ChangeOps are opaque events", "VersionControl.GetChangeOps returns a non-nil workspace when its error is nil"},
@@ -408,6 +409,135 @@ func runC14(c *Ctx) {
 		}
 	}
 	c.S.Floor("R6", "manifest parse sites in package endorse", 1, n6)
+
+	// R6b: the object the manifest is parsed into (and which is then extended and written back) is allocated
+	// during the attempt. An object that outlives the attempt (captured from outside the retry, a parameter fed
+	// from outside, a field, a global) carries the previous attempt's view of the manifest into the next one.
+	region := c.reachable(attemptFns, nil)
+	cg := c.P.CallGraph()
+	var fresh func(v ssa.Value, depth int, seen map[ssa.Value]bool) (bool, string)
+	fresh = func(v ssa.Value, depth int, seen map[ssa.Value]bool) (bool, string) {
+		if depth > 6 || seen[v] {
+			return true, ""
+		}
+		seen[v] = true
+		switch x := v.(type) {
+		case *ssa.MakeInterface:
+			return fresh(x.X, depth, seen)
+		case *ssa.ChangeType:
+			return fresh(x.X, depth, seen)
+		case *ssa.Phi:
+			for _, e := range x.Edges {
+				if ok, why := fresh(e, depth+1, seen); !ok {
+					return false, why
+				}
+			}
+			return true, ""
+		case *ssa.Alloc:
+			if !region[x.Parent()] {
+				return false, "it is allocated in " + load.FuncName(x.Parent()) + ", outside the attempt"
+			}
+			// a cell holding a pointer: what is stored into it
+			if _, isPtr := x.Type().(*types.Pointer).Elem().Underlying().(*types.Pointer); isPtr {
+				for _, ref := range *x.Referrers() {
+					if st, ok := ref.(*ssa.Store); ok && st.Addr == x {
+						if ok, why := fresh(st.Val, depth+1, seen); !ok {
+							return false, why
+						}
+					}
+				}
+			}
+			return true, ""
+		case *ssa.UnOp:
+			if x.Op == token.MUL {
+				switch a := x.X.(type) {
+				case *ssa.Alloc, *ssa.FreeVar:
+					return fresh(a, depth+1, seen)
+				case *ssa.FieldAddr:
+					return false, "it is loaded from a stored field (" + flow.FieldName(a) + ")"
+				case *ssa.Global:
+					return false, "it is loaded from package-level variable " + a.Name()
+				}
+			}
+			return true, ""
+		case *ssa.Global:
+			return false, "it is package-level variable " + x.Name()
+		case *ssa.FreeVar:
+			fn := x.Parent()
+			par := fn.Parent()
+			if par == nil || !region[par] {
+				name := "?"
+				if par != nil {
+					name = load.FuncName(par)
+				}
+				return false, "it is captured from " + name + ", which runs once for all attempts"
+			}
+			idx := -1
+			for i, fv := range fn.FreeVars {
+				if fv == x {
+					idx = i
+				}
+			}
+			for _, b := range par.Blocks {
+				for _, in := range b.Instrs {
+					if mc, ok := in.(*ssa.MakeClosure); ok && mc.Fn == fn && idx >= 0 && idx < len(mc.Bindings) {
+						if ok, why := fresh(mc.Bindings[idx], depth+1, seen); !ok {
+							return false, why
+						}
+					}
+				}
+			}
+			return true, ""
+		case *ssa.Parameter:
+			fn := x.Parent()
+			idx := -1
+			for i, p := range fn.Params {
+				if p == x {
+					idx = i
+				}
+			}
+			n := cg.Nodes[fn]
+			callers := 0
+			if n != nil {
+				for _, e := range n.In {
+					if e.Caller.Func == nil || !region[e.Caller.Func] || e.Site == nil {
+						continue
+					}
+					args := e.Site.Common().Args
+					if e.Site.Common().IsInvoke() || idx < 0 || idx >= len(args) {
+						continue
+					}
+					callers++
+					if ok, why := fresh(args[idx], depth+1, seen); !ok {
+						return false, why
+					}
+				}
+			}
+			if callers == 0 {
+				return false, "it is a parameter of " + load.FuncName(fn) + " supplied from outside the attempt"
+			}
+			return true, ""
+		}
+		return true, ""
+	}
+	n6b := 0
+	for f := range region {
+		if load.RelPkg(f) != "endorse" || c.isTestFunc(f) {
+			continue
+		}
+		for _, call := range callsIn(f, func(call ssa.CallInstruction) bool {
+			cal := call.Common().StaticCallee()
+			return cal != nil && cal.String() == "google.golang.org/protobuf/encoding/prototext.Unmarshal" && len(call.Common().Args) == 2 &&
+				typeMentions(call.Common().Args[1], repoPath("proto/releases"), "VMEndorsementMap")
+		}) {
+			n6b++
+			ok, why := fresh(call.Common().Args[1], 0, map[ssa.Value]bool{})
+			c.S.Check(ok, "R6b", load.FuncName(f)+":manifest object per attempt", c.pos(call.Pos()),
+				"the manifest is parsed into an object allocated during the attempt",
+				"the manifest is parsed into an object that outlives the attempt: "+why+"; a retry would extend and write back the previous attempt's view of the manifest")
+		}
+	}
+	c.S.Floor("R6b", "manifest parse sites reached from the attempt", 1, n6b)
 }
 
 // isIncrementOf: v == phi + k (k > 0 const), possibly through another φ-free chain.
